@@ -129,6 +129,12 @@ def main():
         for p in os.listdir("/tmp"):
             if p.startswith("kverif-harness-"):
                 shutil.rmtree(os.path.join("/tmp", p), ignore_errors=True)
-    json.dump({"repo_head": head, "time": time.strftime("%Y-%m-%d %H:%M"), "results": [{k: r[k] for k in ("prop", "commit", "sig", "witness", "status")} for r in results]}, open("/verif/replays/known/AUDIT.json", "w"), indent=1)
+    # results of commits that were not audited this time are kept
+    new = [{k: r[k] for k in ("prop", "commit", "sig", "witness", "status")} for r in results]
+    try:
+        kept = [r for r in json.load(open("/verif/replays/known/AUDIT.json"))["results"] if r["witness"] not in {x["witness"] for x in new}]
+    except Exception:
+        kept = []
+    json.dump({"repo_head": head, "time": time.strftime("%Y-%m-%d %H:%M"), "results": kept + new}, open("/verif/replays/known/AUDIT.json", "w"), indent=1)
 
 main()
